@@ -350,6 +350,26 @@ Theorem one_unauthenticated_hop_clears_ad : forall q st owners n e,
 Proof. exact one_bad_hop_no_ad_lemma. Qed.
 Print Assumptions one_unauthenticated_hop_clears_ad.
 
+(* the reply additionalAnswer composes for a chain that ends — in data or in a DENIAL (the last entry then hands in only the
+   rcode and the authority section): AD means the client's flags allow it and EVERY entry that contributed a record, to the
+   answer OR to the authority section, was filed with AD *)
+Theorem chase_reply_ad_sound : forall q st fuel qn r,
+  chase_reply q st fuel qn = Some r -> cr_ad r = true ->
+  q_cd q = false /\ (q_do q = true \/ q_ad q = true) /\
+  forall n, In n (cr_answer r ++ cr_auth r) -> exists e, cs_find st n = Some e /\ ce_ad e = true.
+Proof. exact chase_reply_ad_sound_lemma. Qed.
+Print Assumptions chase_reply_ad_sound.
+
+(* a denial at the end of an alias chain is ONE entry's (no alias link, a denial, NXDOMAIN iff the rcode says so), and the
+   composed reply carries AD only if that denial itself was filed with AD, however many authenticated aliases led to it *)
+Theorem chased_denial_rests_on_its_own_verdict : forall q st fuel qn r,
+  chase_reply q st fuel qn = Some r -> (cr_auth r <> [] \/ cr_rcode r = 3) ->
+  exists l e, cr_auth r = [l] /\ cs_find st l = Some e /\ ce_next e = None /\ ce_term e <> TData /\
+              (cr_rcode r = 3 <-> ce_term e = TNxDomain) /\
+              (cr_ad r = true -> ce_ad e = true) /\ (ce_ad e = false -> cr_ad r = false).
+Proof. exact chased_denial_rests_on_its_own_verdict_lemma. Qed.
+Print Assumptions chased_denial_rests_on_its_own_verdict.
+
 (* a validating reader meets only bits filed for CD=0 requests, and they are the resolver's verdict *)
 Theorem filed_for_validating_readers : forall v cd a p1, file_verdict v cd = (Some a, p1) -> cd = false /\ a = v.
 Proof. exact file_verdict_cd0_lemma. Qed.
